@@ -4,6 +4,8 @@
 // capacity with symbolic payload values; see broadcast.rs contracts for the rationale.
 
 use super::*;
+// explicit imports: the contracts must not depend on which names the parent module happens to import
+use std::sync::mpsc::{RecvError, SendError, TryRecvError, TrySendError};
 use crate::verif_hooks::pay::{self, Pay};
 use crate::verif_hooks::*;
 
